@@ -41,10 +41,29 @@ def seeded_table():
     return "\n".join(rows)
 
 
+def refix_table():
+    p = os.path.join(V, "seeded", "refix-results.json")
+    if not os.path.exists(p):
+        return "(not run yet)"
+    d = json.load(open(p))
+    tot = len(d)
+    na = [c for c, v in d.items() if not v.get("applies")]
+    nobuild = [c for c, v in d.items() if v.get("applies") and v["checks"] and all(x["exit"] == 2 for x in v["checks"].values())]
+    caught = [c for c, v in d.items() if v.get("applies") and any(x["fired"] for x in v["checks"].values())]
+    silent = [c for c, v in d.items() if v.get("applies") and c not in caught and c not in nobuild]
+    rows = ["%d repaired defects re-introduced one at a time (reverse patch of the `fix:` commit, quick tier, seed 1, the check under whose key the defect was first recorded): "
+            "**%d caught**, %d reverse patches no longer apply (later fixes touch the same lines), %d no longer build, %d silent." % (tot, len(caught), len(na), len(nobuild), len(silent)), ""]
+    if silent:
+        rows += ["| silent in the quick tier | what it was |", "|---|---|"]
+        for c in silent:
+            rows.append("| `%s` | %s |" % (c, re.sub(r"^fixed: property=\S+ \S+ ", "", d[c]["what"]).replace("|", "\\|")[:200]))
+    return "\n".join(rows)
+
+
 def main():
     p = os.path.join(V, "DESIGN.md")
     s = open(p).read()
-    for name, fn in (("fixed", fixed_table), ("seeded", seeded_table)):
+    for name, fn in (("fixed", fixed_table), ("seeded", seeded_table), ("refix", refix_table)):
         pat = re.compile(r"(<!-- BEGIN:%s -->\n).*?(<!-- END:%s -->)" % (name, name), re.S)
         if not pat.search(s):
             print("marker %s not found" % name)
